@@ -242,7 +242,60 @@ def clause_gymadapter(cases, ctx: Ctx):
     return out
 
 
-CLAUSES = {"stack": clause_stack, "classic": clause_classic, "gymadapter": clause_gymadapter}
+def clause_fresh(cases, ctx: Ctx):
+    """"The returned state is a FRESHLY DRAWN initial state": a tabular MDP with three equally likely initial states in which every
+    step ends the episode.  case: {kind, spec, keys}.  If the auto-reset (or reset) state is the same for every key / at every
+    boundary of every seeded run, the draw does not use fresh randomness.  (With fresh draws that coincidence has probability
+    3^-31 per case for the functional API and 3^-44 for the adapter.)"""
+    from lerax.compatibility.gym import LeraxToGymEnv
+    from lerax.compatibility.gymnax import LeraxToGymnaxEnv
+
+    out = []
+    table = dict(T=[[0, 1], [1, 2], [2, 0]], term=[False, False, False], init=[True, True, True], limit=1, act_kind="discrete", obs_kind="discrete", S=3, A=2)
+    for ci, c in enumerate(cases):
+        env = wrapx.build_stack(wrapx.base_env(table), c["spec"])
+        kind = c["kind"]
+        keys = jax.vmap(jr.key)(jnp.asarray(c["keys"]))
+        desc = f"3 initial states, every step ends the episode, stack {c['spec']}"
+        if kind == "reset":
+            st = eqx.filter_jit(lambda ks: jax.vmap(lambda k: env.reset(key=k)[0])(ks))(keys)
+            drawn = wrapx.decode_state(st)["s"].tolist()
+            what = f"env.reset(key=k) for the {len(c['keys'])} keys {c['keys'][:3]}..."
+        elif kind == "step":
+            s0 = env.reset(key=jr.key(c["keys"][0]))[0]
+            st = eqx.filter_jit(lambda ks: jax.vmap(lambda k: env.step(s0, jnp.asarray(0), key=k)[0])(ks))(keys)
+            drawn = wrapx.decode_state(st)["s"].tolist()
+            what = f"the auto-reset state of env.step(s, 0, key=k) for {len(c['keys'])} keys"
+        elif kind == "gymnax":
+            gx = LeraxToGymnaxEnv(env)
+            _, s0 = gx.reset_env(jr.key(c["keys"][0]), gx.default_params)
+            st = eqx.filter_jit(lambda ks: jax.vmap(lambda k: gx.step(k, s0, jnp.asarray(0), gx.default_params)[1])(ks))(keys)
+            drawn = wrapx.decode_state(st.env_state)["s"].tolist()
+            what = f"the auto-reset state of LeraxToGymnaxEnv.step(k, ...) for {len(c['keys'])} keys"
+        else:  # gym adapter: the key chain is the adapter's own; several boundaries per seeded run, step() only
+            g = LeraxToGymEnv(env)
+            runs = []
+            for seed in c["keys"][:4]:
+                g.reset(seed=int(seed))
+                seq = []
+                for _ in range(12):
+                    g.step(np.asarray(0))
+                    seq.append(int(wrapx.decode_state(g.state)["s"]))
+                runs.append(seq)
+                ctx.transitions += 12
+            ctx.guard("fresh-gymadapter-varied", int(any(len(set(r)) > 1 for r in runs)))
+            if all(len(set(r)) == 1 for r in runs):
+                out.append((ci, "C01/fresh/gymadapter/auto-reset-states-identical",
+                            f"{desc}: LeraxToGymEnv driven by step() only through 12 episode ends per run: the auto-reset states were {runs} for seeds {c['keys'][:4]} - identical at every boundary of every run, not freshly drawn"))
+            continue
+        ctx.transitions += len(c["keys"])
+        ctx.guard(f"fresh-{kind}-varied", int(len(set(drawn)) > 1))
+        if len(set(drawn)) == 1:
+            out.append((ci, f"C01/fresh/{kind}/same-state-for-every-key", f"{desc}: {what} is always state {drawn[0]}: the initial state is not drawn from the key"))
+    return out
+
+
+CLAUSES = {"stack": clause_stack, "classic": clause_classic, "gymadapter": clause_gymadapter, "fresh": clause_fresh}
 
 
 def explore(ctx: Ctx):
@@ -286,5 +339,9 @@ def explore(ctx: Ctx):
             for seq in itertools.product([0, 1], repeat=L):
                 gym_cases.append(dict(table=t, spec=spec, seed=int(keys[0]) % 1000, actions=list(seq)))
     ctx.run("gymadapter", gym_cases)
+    fresh = [dict(kind=k, spec=spec, keys=[int(x) % 100000 for x in key_ints(ctx.seed, 32, salt=3)])
+             for k in ("reset", "step", "gymnax", "gymadapter") for spec in ([], [["TimeLimit", 2]], [["Identity"]])]
+    ctx.run("fresh", fresh)
     ctx.traces += ctx.transitions
-    ctx.require("done", "trunc", "term", "classic-term", "classic-trunc", "gymadapter-done", "reset-multi-init-varied")
+    ctx.require("done", "trunc", "term", "classic-term", "classic-trunc", "gymadapter-done", "reset-multi-init-varied",
+                "fresh-reset-varied", "fresh-step-varied", "fresh-gymnax-varied", "fresh-gymadapter-varied")
